@@ -313,17 +313,19 @@ class ValueGen:
 
     def obj(self, cls, body, depth=0):
         fields = []
-        self.walk(cls, body, fields, {}, depth, {'none': False})
+        self.walk(cls, body, fields, {}, depth, {'none': False, 'root': body})
         return {'o': cls, 'f': fields}
 
     def walk(self, cls, body, fields, env, depth, st):
         rng = self.rng
         # switch targets: bias their values to the case values
+        # (looked up in the whole class body: a switch or a length reference inside <chunked> may use a field declared outside the section)
+        root = st.get('root') or body
         targets = {}
-        for i in body:
+        for i in flat_body(root):
             if i['tag'] == 'switch':
                 targets[i['attrs']['field']] = i
-        lens = {i['attrs']['name']: i for i in body if i['tag'] == 'length'}
+        lens = {i['attrs']['name']: i for i in flat_body(root) if i['tag'] == 'length'}
         for i in body:
             t, a = i['tag'], i.get('attrs', {})
             if t == 'field':
@@ -385,7 +387,7 @@ class ValueGen:
                 fname = a['field']
                 fv = env.get(fname)
                 z = None if fv is None else (fv.get('i') if 'i' in fv else fv.get('v'))
-                fty = self.field_type(body, fname)
+                fty = self.field_type(st.get('root') or body, fname)
                 chosen = None
                 for c in i['cases']:
                     if str(c['attrs'].get('default', '')).lower() == 'true':
